@@ -45,9 +45,136 @@ fn moves_list_behind_rule(g: &Grammar) -> bool {
     d.iter().enumerate().any(|(i, x)| i > first_rule && matches!(x, Decl::Skip(_) | Decl::Right(_) | Decl::Start | Decl::Part(_)))
 }
 
+/// (a) one grammar text: three runs of the real binary in fresh processes from different
+/// directories with perturbed environments, and two analyses in one process
+fn repro_case(i: usize, text: &str, base: &std::path::Path) -> Option<Violation> {
+        let mut outs = vec![];
+        for r in 0..3 {
+            let dir = base.join(format!("a{i}-{r}")).join(["x", "deeper/nested", "y y"][r]);
+            std::fs::create_dir_all(&dir).unwrap();
+            std::fs::write(dir.join("g.llw"), text).unwrap();
+            let mut cmd = Command::new(llw());
+            cmd.current_dir(&dir).args(["-s", "g.llw"]).env("NO_COLOR", "1");
+            match r {
+                1 => {
+                    cmd.env("HOME", "/nonexistent").env("LANG", "C").env("RUST_BACKTRACE", "1").env("TZ", "Pacific/Chatham");
+                }
+                2 => {
+                    cmd.env_clear().env("PATH", "/usr/bin").env("NO_COLOR", "1").env("LELWEL_JUNK", "x".repeat(5000));
+                }
+                _ => {}
+            }
+            let o = cmd.output().expect("llw");
+            let generated = std::fs::read(dir.join("generated.rs")).ok();
+            outs.push((o.status.code(), String::from_utf8_lossy(&o.stderr).to_string(), generated));
+        }
+        let _ = std::fs::remove_dir_all(base.join(format!("a{i}-0")));
+        let _ = std::fs::remove_dir_all(base.join(format!("a{i}-1")));
+        let _ = std::fs::remove_dir_all(base.join(format!("a{i}-2")));
+        // in-process twice
+        let (t1, t2) = (text.to_string(), text.to_string());
+        let d1 = lw::catch(move || lw::analyze(&t1)).ok().map(|r| r.diags);
+        let d2 = lw::catch(move || lw::analyze(&t2)).ok().map(|r| r.diags);
+        if d1 != d2 {
+            return Some(Violation { sig: "inprocess-diags-differ".into(), what: "two analyses of the same text in one process give different diagnostics".into(), replay: json!({"grammar": text}) });
+        }
+        for r in 1..3 {
+            if outs[r].0 != outs[0].0 {
+                return Some(Violation { sig: "exit-differs".into(), what: format!("exit status differs between runs: {:?} vs {:?}", outs[0].0, outs[r].0), replay: json!({"grammar": text}) });
+            }
+            if outs[r].2 != outs[0].2 {
+                return Some(Violation { sig: "generated-differs".into(), what: "generated.rs differs between two runs on the same grammar".into(), replay: json!({"grammar": text}) });
+            }
+            if outs[r].1 != outs[0].1 {
+                return Some(Violation { sig: "stderr-differs".into(), what: format!("diagnostic output differs between runs:\n{}\n---\n{}", outs[0].1, outs[r].1), replay: json!({"grammar": text}) });
+            }
+        }
+        None
+}
+
+/// (b) the static part for one pair: verdict, warnings and analysis sets of a grammar and a
+/// reordering of its declarations
+fn pair_case(g: &Grammar, v: &Grammar) -> Option<Violation> {
+    let replay = json!({"grammar": print(g).text, "permuted": print(v).text});
+    let (a, b) = match (sets_by_id(g), sets_by_id(v)) {
+        (Ok(a), Ok(b)) => (a, b),
+        (Err(p), _) | (_, Err(p)) => return Some(Violation { sig: "panic".into(), what: format!("panic on a grammar of the pair: {p}"), replay }),
+    };
+    if a.2 != b.2 {
+        return Some(Violation { sig: "verdict-changes".into(), what: "an accepted grammar is rejected after reordering its declarations".into(), replay });
+    }
+    if !a.2 {
+        return None;
+    }
+    if a.1 != b.1 {
+        return Some(Violation { sig: "warnings-differ".into(), what: format!("warnings differ after reordering declarations: {:?} vs {:?}", a.1, b.1), replay });
+    }
+    // (imported texts number their rules in file order: compare per rule name)
+    let by_rule = |g: &Grammar, sets: &Vec<String>| -> std::collections::BTreeMap<String, Vec<String>> {
+        let flat = Flat::new(g);
+        let mut m: std::collections::BTreeMap<String, Vec<String>> = Default::default();
+        for (id, n) in flat.nodes.iter().enumerate() {
+            m.entry(g.rules[n.rule].name.clone()).or_default().push(sets.get(id).cloned().unwrap_or_default());
+        }
+        m
+    };
+    if by_rule(g, &a.0) != by_rule(v, &b.0) {
+        let i = a.0.iter().zip(&b.0).position(|(x, y)| x != y).unwrap_or(0);
+        return Some(Violation { sig: "sets-differ".into(), what: format!("analysis sets of regex node {i} differ after reordering declarations: {} vs {}", a.0[i], b.0[i]), replay });
+    }
+    None
+}
+
 pub fn run(ctx: &Ctx) -> i32 {
     let mut ev = Evidence::new("C15", ctx.tier, ctx.seed, RULE);
     let mut rep = Report::new("C15");
+    // saved reproductions
+    let files = match &ctx.replay {
+        Some(p) => vec![p.clone()],
+        None => super::replay_files("C15"),
+    };
+    for f in &files {
+        let Ok(s) = std::fs::read_to_string(f) else { continue };
+        let Ok(v) = serde_json::from_str::<serde_json::Value>(&s) else { continue };
+        let r = &v["replay"];
+        let Some(text) = r["grammar"].as_str() else { continue };
+        ev.eval();
+        ev.label("replayed");
+        if let Some(perm) = r["permuted"].as_str() {
+            let (t1, t2) = (text.to_string(), perm.to_string());
+            if let (Ok(Some(g)), Ok(Some(v2))) = (lw::catch(move || lw::import(&t1)), lw::catch(move || lw::import(&t2))) {
+                if let Some(v) = pair_case(&g, &v2) {
+                    rep.violation(v);
+                } else if let Some(req) = crate::labrun::req_from_json(&g, &r["request"]) {
+                    // behaviour of the two generated parsers on the saved request
+                    let mut batch = lab::build_batch(&[(g.clone(), print(&g).text), (v2.clone(), print(&v2).text)], &LabOpts::default());
+                    if batch.ready(0) && batch.ready(1) {
+                        let key = |rep: &lab::Reply| (format!("{:?}", rep.status).split('(').next().unwrap_or("").to_string(), rep.tree.as_ref().map(|t| t.dump()), rep.diags.clone(), rep.log.iter().filter(|e| matches!(e, lab::Event::Action(..))).count());
+                        let mut r0 = req.clone();
+                        r0.gi = 0;
+                        let mut r1 = req.clone();
+                        r1.gi = 1;
+                        let (k0, k1) = (key(&batch.run(&r0)), key(&batch.run(&r1)));
+                        if k0 != k1 {
+                            rep.violation(Violation { sig: "behaviour-differs".into(), what: format!("generated parsers of a grammar and its reordered variant behave differently: {k0:?} vs {k1:?}"), replay: r.clone() });
+                        }
+                    }
+                }
+            }
+        } else {
+            let base = lab::scratch_root().join("c15-replay");
+            if let Some(v) = repro_case(0, text, &base) {
+                rep.violation(v);
+            }
+            let _ = std::fs::remove_dir_all(&base);
+        }
+    }
+    if ctx.replay.is_some() {
+        lab::cleanup_scratch();
+        let code = rep.finish(&mut ev);
+        ev.write();
+        return code;
+    }
     let mut runner = dice::runner(dice::mix(ctx.seed, &[dice::tag("C15")]), 1);
     let profs = [Profile::full(), Profile { repair: false, ..Profile::full() }, Profile::ebnf(), Profile { pratt: true, nodeops: true, parts: true, skips: true, choice: true, ..Profile::base("pratt-choice") }];
     // ---------- (a) reproducibility through the real binary
@@ -62,50 +189,7 @@ pub fn run(ctx: &Ctx) -> i32 {
         texts
             .par_iter()
             .enumerate()
-            .map(|(i, text)| {
-                let mut outs = vec![];
-                for r in 0..3 {
-                    let dir = base.join(format!("a{i}-{r}")).join(["x", "deeper/nested", "y y"][r]);
-                    std::fs::create_dir_all(&dir).unwrap();
-                    std::fs::write(dir.join("g.llw"), text).unwrap();
-                    let mut cmd = Command::new(llw());
-                    cmd.current_dir(&dir).args(["-s", "g.llw"]).env("NO_COLOR", "1");
-                    match r {
-                        1 => {
-                            cmd.env("HOME", "/nonexistent").env("LANG", "C").env("RUST_BACKTRACE", "1").env("TZ", "Pacific/Chatham");
-                        }
-                        2 => {
-                            cmd.env_clear().env("PATH", "/usr/bin").env("NO_COLOR", "1").env("LELWEL_JUNK", "x".repeat(5000));
-                        }
-                        _ => {}
-                    }
-                    let o = cmd.output().expect("llw");
-                    let generated = std::fs::read(dir.join("generated.rs")).ok();
-                    outs.push((o.status.code(), String::from_utf8_lossy(&o.stderr).to_string(), generated));
-                }
-                let _ = std::fs::remove_dir_all(base.join(format!("a{i}-0")));
-                let _ = std::fs::remove_dir_all(base.join(format!("a{i}-1")));
-                let _ = std::fs::remove_dir_all(base.join(format!("a{i}-2")));
-                // in-process twice
-                let (t1, t2) = (text.clone(), text.clone());
-                let d1 = lw::catch(move || lw::analyze(&t1)).ok().map(|r| r.diags);
-                let d2 = lw::catch(move || lw::analyze(&t2)).ok().map(|r| r.diags);
-                if d1 != d2 {
-                    return Some(Violation { sig: "inprocess-diags-differ".into(), what: "two analyses of the same text in one process give different diagnostics".into(), replay: json!({"grammar": text}) });
-                }
-                for r in 1..3 {
-                    if outs[r].0 != outs[0].0 {
-                        return Some(Violation { sig: "exit-differs".into(), what: format!("exit status differs between runs: {:?} vs {:?}", outs[0].0, outs[r].0), replay: json!({"grammar": text}) });
-                    }
-                    if outs[r].2 != outs[0].2 {
-                        return Some(Violation { sig: "generated-differs".into(), what: "generated.rs differs between two runs on the same grammar".into(), replay: json!({"grammar": text}) });
-                    }
-                    if outs[r].1 != outs[0].1 {
-                        return Some(Violation { sig: "stderr-differs".into(), what: format!("diagnostic output differs between runs:\n{}\n---\n{}", outs[0].1, outs[r].1), replay: json!({"grammar": text}) });
-                    }
-                }
-                None
-            })
+            .map(|(i, text)| repro_case(i, text, &base))
             .collect()
     });
     for v in res_a {
